@@ -294,6 +294,10 @@ kernel('G7_auto', 'bisturi/descriptor.py',
         ('AutoLength', '__init__'), ('AutoLength', 'calculate_length')], 'AutoGen', {},
        extra='Definition auto_template_matched : bool := true.')
 
+kernel('G9_errors', 'bisturi/packet.py', [('PacketError', '__init__'), ('PacketError', 'add_parent_field_and_packet'), ('PacketError', '__str__'), ('Packet', 'unpack'), ('Packet', 'unpack_impl'), ('Packet', 'pack'), ('Packet', 'pack_impl'), ('Packet', 'assert_consistency')], 'ErrorsGen', {}, extra='Definition errors_template_matched : bool := true.')
+kernel('G10_eq', 'bisturi/packet.py', [('Packet', '__init__'), ('Packet', '__eq__'), ('Packet', '__repr__')], 'EqGen', {}, extra='Definition eq_template_matched : bool := true.')
+kernel('G11_codegen', 'bisturi/codegen.py', [('CodeGenerator', '__init__'), ('CodeGenerator', 'generate_code'), ('CodeGenerator', 'generate_unrolled_code_for_descriptor_sync'), ('CodeGenerator', 'generate_code_for_fixed_fields'), ('CodeGenerator', 'generate_code_for_fixed_fields_with_struct_code'), ('CodeGenerator', 'generate_code_for_variable_fields'), ('CodeGenerator', 'generate_code_for_fixed_fields_without_struct_code'), ('CodeGenerator', 'generate_code_for_loop_pack'), ('CodeGenerator', 'generate_code_for_loop_unpack'), (None, 'indent')], 'CodegenGen', {}, extra='Definition codegen_template_matched : bool := true.')
+
 
 def translate_kernel(kid):
     k = KERNELS[kid]
